@@ -28,7 +28,7 @@ MC = [("ok", "ok"), ("ok_l1", "ok"), ("ok_l3", "ok"), ("ok_nolimit", "ok"),
       ("close", "violates:AtRest")]
 
 META = {
-    "text": "ClientManager.tla models the Manager's connect / reconnect goroutines under connectMu, the back-off counter, the socket's state and offline buffer, the server's admission of the namespace and the environment taking the link down and up; TLC checks attempt accounting, the single reconnect_failed, exactly-once in-order delivery of what was emitted offline, dropping of volatile events and (under fairness) that the client gets back in once the link stays up. The real client is driven through outage patterns x limits 0..5 x transports x emit mixes behind a fault proxy; ClientManagerTrace.tla replays every hook record (state writes by site, back-off steps, chosen delays and measured sleeps, send/park/drop/flush decisions, arrivals at the server) against those actions.",
+    "text": "ClientManager.tla models the Manager's connect / reconnect goroutines under connectMu, the back-off counter, the socket's state and offline buffer, the server's admission of the namespace and the environment taking the link down and up; TLC checks attempt accounting, the single reconnect_failed, exactly-once in-order delivery of what was emitted offline, dropping of volatile events and (under fairness) that the client gets back in once the link stays up. The real client is driven through outage patterns x limits 0..5 x transports x emit mixes behind a fault proxy; ClientManagerTrace.tla replays every hook record (state writes by site, back-off steps, chosen delays and measured sleeps, send/park/drop/flush decisions, arrivals at the server) against those actions. A further deterministic schedule has the user disconnect and connect again inside a back-off sleep (the old cycle must end, the new one counts from 1 and gives up once).",
     "note": "Trusted: the proxy as the model of an outage; time bounds use the timestamps the hooks take before and after time.Sleep.",
     "technique": "TLA+/TLC model checking + trace validation",
     "design_ref": "DESIGN.md 4.11, 5 (C15)",
